@@ -630,3 +630,54 @@ M("c02-host-budget-never-released", ["C02"], VM,
   [], note="a budget that is charged but not released: a VM runs once, so nothing observable follows; not decided")
 # wave 3 (written against the repaired tree)
 S("seed-C07-c", ["C07"], "seeded/C07-c/patch.diff", [("C07", "C07-R2$", "handler-stack")], note="return keeps the handler record of a try without finally")
+
+# ---- front-end progress (C04-R5 / C10-R5) ----
+RPA = "src/microjs/regex/parser.py"
+M("fp-lexer-whitespace-no-advance", ["C04"], LX,
+  "            if ch in \" \\t\\r\\n\":\n                self._advance()\n                continue\n",
+  "            if ch in \" \\t\\r\\n\":\n                continue\n",
+  [("C04", "C04-R5", "_skip_whitespace:while")], note="whitespace loop spins")
+M("fp-lexer-operator-not-consumed", ["C04"], LX,
+  "        # Operators and punctuation\n        self._advance()\n",
+  "        # Operators and punctuation\n",
+  [("C04", "C04-R5", "next_token:consumes-or-end-token")], note="next_token hands out an operator token without moving: every parser loop spins")
+M("fp-parser-nested-array-no-advance", ["C04"], PA,
+  "            elif self._check(TokenType.LBRACKET):\n                # Nested array - go deeper\n                self._advance()\n",
+  "            elif self._check(TokenType.LBRACKET):\n                # Nested array - go deeper\n",
+  [("C04", "C04-R5", "_parse_nested_arrays:while")])
+M("fp-parser-paren-count-no-advance", ["C04"], PA,
+  "                if self._is_arrow_function_params():\n                    break\n                self._advance()\n                paren_depth += 1\n",
+  "                if self._is_arrow_function_params():\n                    break\n                paren_depth += 1\n",
+  [("C04", "C04-R5", "_parse_primary_expression:while")])
+M("fp-parser-left-recursion", ["C04"], PA,
+  "        expr = self._parse_binary_expression(0, exclude_in)\n\n        if self._match(TokenType.QUESTION):",
+  "        expr = self._parse_assignment_expression(exclude_in)\n\n        if self._match(TokenType.QUESTION):",
+  [("C04", "C04-R5", "left-recursion")])
+M("fp-regex-alternative-guard-continues", ["C04", "C10"], RPA,
+  "                # Unknown character - skip to prevent infinite loop\n                break\n",
+  "                # Unknown character - skip to prevent infinite loop\n                continue\n",
+  [("C04", "C04-R5", "_parse_alternative:while"), ("C10", "C10-R5", "_parse_alternative:while")])
+M("fp-regex-class-char-no-advance", ["C10"], RPA,
+  "            # Literal escape\n            return escaped\n\n        self._advance()\n        return ch\n",
+  "            # Literal escape\n            return escaped\n\n        return ch\n",
+  [("C10", "C10-R5", "_parse_char_class:while")])
+M("fp-regex-index-loop-stalls", ["C10"], RPA,
+  "        while i < len(self.pattern) and self.pattern[i].isdigit():\n            i += 1\n        if i == self.pos + 1:",
+  "        while i < len(self.pattern) and self.pattern[i].isdigit():\n            i += 0\n        if i == self.pos + 1:",
+  [("C10", "C10-R5", "_is_quantifier_start:while")])
+T("t-fp-lexer-length-spelled-out", ["C04"], LX,
+  "        while self.pos < self.length:\n            ch = self._current()\n\n            # Whitespace",
+  "        while self.pos < len(self.source):\n            ch = self._current()\n\n            # Whitespace")
+T("t-fp-regex-advance-early-return", ["C04", "C10"], RPA,
+  "        if self.pos < len(self.pattern):\n            ch = self.pattern[self.pos]\n            self.pos += 1\n            return ch\n        return None\n",
+  "        if self.pos >= len(self.pattern):\n            return None\n        ch = self.pattern[self.pos]\n        self.pos += 1\n        return ch\n")
+T("t-fp-parser-match-early-return", ["C04"], PA,
+  "        if self._check(*types):\n            self._advance()\n            return True\n        return False\n",
+  "        if not self._check(*types):\n            return False\n        self._advance()\n        return True\n")
+T("t-fp-parser-paren-depth-truthiness", ["C04"], PA,
+  "            if paren_depth == 0:\n                # The first paren was an arrow function",
+  "            if not paren_depth:\n                # The first paren was an arrow function")
+S("seed-C10-b", ["C10"], "seeded/C10-b/patch.diff", [("C10", "C10-R5", "_count_capture_groups:while")], silent=[], note="pre-scan loop adds 1 to a str.find result that may be -1")
+S("seed-C17-b", ["C17"], "seeded/C17-b/patch.diff", [("C17", "C17-R10", "reduce_fn:alias-across-callback")], silent=["C04"], note="local alias of arr._elements kept across the callback")
+S("seed-C03-b", ["C03"], "seeded/C03-b/patch.diff", [("C03", "C03-R7", "handle_replacement")], note="capture groups passed to the replacer un-normalised (None)")
+S("seed-C08-b", ["C08"], "seeded/C08-b/patch.diff", [("C08", "C08-R8", "typeof(result)~object")], note="typeof-based objectness test accepts null")
